@@ -48,9 +48,11 @@ func c20(c *Ctx) {
 		okOld := true
 		nret := 0
 		for _, ret := range reach.Returns() {
-			nret++
-			if !derivesOnlyFromParam(ret.Results[0], fn.Params[0]) {
-				okOld = false
+			for _, alt := range reach.Alts(ret) {
+				nret++
+				if !derivesOnlyFromParam(alt.Results[0], fn.Params[0]) {
+					okOld = false
+				}
 			}
 		}
 		r.Check(okOld && nret >= 1, "SIBLING", key+"/keep-old-on-error", c.InstrPos(um), "an unparsable section keeps the previous settings", "after a parse error the function does not return the old section unchanged: the previously effective settings are cleared or replaced")
@@ -71,13 +73,15 @@ func c20(c *Ctx) {
 			reach = an.Explore(fn, nil, an.Facts{okLookup: an.False}, nil)
 			okDef := true
 			for _, ret := range reach.Returns() {
-				if reach.Reached(um) {
-					okDef = false
-				}
-				src := an.Path(ret.Results[0])
-				if !(strings.Contains(src, "DefaultSLOCfg") || strings.Contains(src, "local:complit") || strings.Contains(src, "{}")) {
-					if derivesOnlyFromParam(ret.Results[0], fn.Params[0]) {
+				for _, alt := range reach.Alts(ret) {
+					if reach.Reached(um) {
 						okDef = false
+					}
+					src := an.Path(alt.Results[0])
+					if !(strings.Contains(src, "DefaultSLOCfg") || strings.Contains(src, "local:complit") || strings.Contains(src, "{}")) {
+						if derivesOnlyFromParam(alt.Results[0], fn.Params[0]) {
+							okDef = false
+						}
 					}
 				}
 			}
@@ -306,8 +310,10 @@ func c20deliver(c *Ctx) {
 			reach := an.Explore(fn, an.After(cl), an.Facts{cl.Value(): an.NonNil}, nil)
 			bad := ""
 			for _, ret := range reach.Returns() {
-				if reach.EvalAt(ret.Results[1], ret) != an.NonNil {
-					bad = c.InstrPos(ret)
+				for _, alt := range reach.Alts(ret) {
+					if reach.EvalAlt(alt, 1) != an.NonNil {
+						bad = c.InstrPos(ret)
+					}
 				}
 			}
 			r.Check(bad == "", "ERR", sprintf("%s/%s-error-returned", fkey(fn), m), c.InstrPos(cl), "a failed "+m+" is returned to the work queue", "after Client."+m+" failed Reconcile can return a nil error (at "+bad+"): the NodeSLO keeps the previous layered values and nothing retries")
